@@ -173,4 +173,118 @@ theorem selectCols_rect (t : Tbl) (h : Rect t) (names : List String) (hn : ∀ c
       obtain ⟨h1, _⟩ := mapM_cols t _ cols hm c hc
       exact ⟨v, by rw [h1, hv], hl⟩
 
+
+/-! ### transposition and concatenation -/
+
+theorem lookupA_some_of_mem {ν : Type} : ∀ (d : List (String × ν)) (k : String), k ∈ d.map (·.1) →
+    ∃ v, lookupA d k = some v ∧ (k, v) ∈ d
+  | [], _, h => by cases h
+  | (k0, v0) :: r, k, h => by
+    simp only [lookupA]
+    by_cases hk : k0 = k
+    · subst hk; exact ⟨v0, by simp, by simp⟩
+    · simp only [hk, if_false]
+      have : k ∈ r.map (·.1) := by
+        rcases List.mem_cons.mp h with e | e
+        · exact absurd e.symm hk
+        · exact e
+      obtain ⟨v, hv, hm⟩ := lookupA_some_of_mem r k this
+      exact ⟨v, hv, List.mem_cons_of_mem _ hm⟩
+
+/-- `_t`: rectangular, one row per column of the source -/
+theorem transposeT_rect (t : Tbl) : Rect (transposeT t) ∧ (transposeT t).nrows = t.colNames.length := by
+  unfold transposeT
+  refine rect_mk _ _ _ _ _ _ _ t.colNames.length (by simp) ?_
+  intro c hc
+  have hkeys : c ∈ (("columns", t.colNames.map Cell.str) ::
+      (List.range t.nrows).map (fun k => ("row" ++ toString k,
+        t.colNames.map (fun c => match (t.col c).bind (fun v => v[k]?) with
+          | some x => Cell.str (cellStr x) | none => Cell.str "")))).map (·.1) := by
+    simpa [List.map_map, Function.comp] using hc
+  obtain ⟨v, hv, hm⟩ := lookupA_some_of_mem _ c hkeys
+  refine ⟨v, hv, ?_⟩
+  rcases List.mem_cons.mp hm with e | e
+  · cases e; simp
+  · obtain ⟨k, _, hk⟩ := List.mem_map.mp e
+    cases hk
+    simp
+
+theorem mapM_flatten_lookup (G : String → Option (List (List Cell))) : ∀ (names : List String) (data : List (String × List Cell)),
+    names.mapM (fun c => (G c).map (fun cols => (c, cols.flatten))) = some data →
+    ∀ c ∈ names, ∃ cols, G c = some cols ∧ lookupA data c = some cols.flatten
+  | [], _, _, c, hc => by cases hc
+  | n :: ns, data, h, c, hc => by
+    simp only [List.mapM_cons, Option.bind_eq_bind] at h
+    cases hn : G n with
+    | none => simp [hn] at h
+    | some cols =>
+      simp only [hn, Option.map_some, Option.bind_some] at h
+      cases hr : ns.mapM (fun c => (G c).map (fun cols => (c, cols.flatten))) with
+      | none => simp [hr] at h
+      | some d' =>
+        simp only [hr, Option.bind_some, Option.pure_def, Option.some.injEq] at h
+        subst h
+        by_cases hcn : n = c
+        · subst hcn
+          exact ⟨cols, hn, by simp [lookupA]⟩
+        · have hc' : c ∈ ns := by
+            rcases List.mem_cons.mp hc with e | e
+            · exact absurd e.symm hcn
+            · exact e
+          obtain ⟨cols', h1, h2⟩ := mapM_flatten_lookup G ns d' hr c hc'
+          exact ⟨cols', h1, by simp [lookupA, hcn, h2]⟩
+
+/-- the rows of a concatenation: the lengths add -/
+theorem concatT_rect : ∀ (ts : List Tbl) (r : Tbl), (∀ t ∈ ts, Rect t) → concatT ts = .ok r →
+    Rect r ∧ r.nrows = (ts.map (·.nrows)).sum := by
+  intro ts r hrect hr
+  unfold concatT at hr
+  cases ts with
+  | nil => cases hr
+  | cons t0 rest =>
+    simp only at hr
+    split at hr
+    · next hname =>
+      split at hr
+      · cases hr
+      · next data hm =>
+        simp only [Except.ok.injEq] at hr
+        subst hr
+        refine rect_mk _ _ _ _ _ _ _ _ hname ?_
+        intro c hc
+        -- the pair the mapM produced for c
+        obtain ⟨cols, hcols, hl⟩ := mapM_flatten_lookup (fun c => (t0 :: rest).mapM (fun (t : Tbl) => t.col c)) _ data hm c hc
+        refine ⟨cols.flatten, hl, ?_⟩
+        -- each table lists c and holds it with its own length
+        have hcin : ∀ t ∈ t0 :: rest, c ∈ t.colNames := by
+          intro t ht
+          have hf := List.mem_filter.mp hc
+          rcases List.mem_cons.mp ht with rfl | ht
+          · exact hf.1
+          · have := List.all_eq_true.mp hf.2 t ht
+            simpa using this
+        have hlen : ∀ (l : List Tbl) (cs : List (List Cell)), (∀ t ∈ l, Rect t ∧ c ∈ t.colNames) →
+            l.mapM (fun (t : Tbl) => t.col c) = some cs → cs.flatten.length = (l.map (·.nrows)).sum := by
+          intro l
+          induction l with
+          | nil => intro cs _ h; simp only [List.mapM_nil, Option.pure_def, Option.some.injEq] at h; subst h; rfl
+          | cons t l ih =>
+            intro cs hall h
+            simp only [List.mapM_cons, Option.bind_eq_bind] at h
+            cases ht : t.col c with
+            | none => simp [ht] at h
+            | some v =>
+              simp only [ht, Option.bind_some] at h
+              cases hl' : l.mapM (fun (t : Tbl) => t.col c) with
+              | none => simp [hl'] at h
+              | some cs' =>
+                simp only [hl', Option.bind_some, Option.pure_def, Option.some.injEq] at h
+                subst h
+                obtain ⟨hr, hcc⟩ := hall t (List.mem_cons_self ..)
+                have := nrows_eq t hr c hcc v ht
+                simp only [List.flatten_cons, List.length_append, List.map_cons, List.sum_cons, this]
+                rw [ih cs' (fun u hu => hall u (List.mem_cons_of_mem _ hu)) hl']
+        exact hlen (t0 :: rest) cols (fun t ht => ⟨hrect t ht, hcin t ht⟩) hcols
+    · cases hr
+
 end TableM
